@@ -691,6 +691,53 @@ func runC19Centre(c *Ctx) {
 	if n < 2 {
 		c.Errorf("found %d divisions by the radial distance in Reverse bodies, expected >= 2 (AzimuthalEquidistant, Orthographic)", n)
 	}
+	// Forward: a division by a norm (hypot / square root of a sum) vanishes where the vector does — at the centre
+	// of an azimuthal projection — and needs the same guard
+	for _, p := range cartoProjections(c) {
+		f := p.forward
+		if f == nil {
+			continue
+		}
+		fn := FuncName(f)
+		eachInstr(f, func(in ssa.Instruction) {
+			bo, ok := in.(*ssa.BinOp)
+			if !ok || bo.Op != token.QUO || !isFloat(bo.Type()) {
+				return
+			}
+			den := stripLoad(bo.Y)
+			call, ok := den.(*ssa.Call)
+			if !ok {
+				return
+			}
+			switch calleeName(call) {
+			case "math.Hypot", "carto.hypot":
+			case "math.Sqrt", "carto.sqrt":
+				if sum, ok := stripLoad(call.Call.Args[0]).(*ssa.BinOp); !ok || sum.Op != token.ADD {
+					return
+				}
+			default:
+				return
+			}
+			construct := "divide by the norm of a direction vector"
+			for _, g := range guardsAt(in) {
+				gb, ok := g.Cond.(*ssa.BinOp)
+				if !ok {
+					continue
+				}
+				isDen := func(v ssa.Value) bool { v = stripLoad(v); return v == den || sameValue(v, den) }
+				zero := func(v ssa.Value) bool {
+					cst, ok := v.(*ssa.Const)
+					return ok && cst.Value != nil && cst.Value.String() == "0"
+				}
+				if (gb.Op == token.EQL && !g.Truth || gb.Op == token.NEQ && g.Truth || gb.Op == token.GTR && g.Truth && isDen(gb.X)) &&
+					((isDen(gb.X) && zero(gb.Y)) || (isDen(gb.Y) && zero(gb.X))) {
+					c.OK(in.Pos(), fn, construct, "dominating guard excludes a zero norm")
+					return
+				}
+			}
+			c.Bad(in.Pos(), fn, construct, "Forward divides by the length of a vector with no guard: where the vector vanishes (the projection centre, its antipode) this is 0/0 and the projected point is NaN instead of the origin")
+		})
+	}
 }
 
 func runC19Quadrant(c *Ctx) {
